@@ -25,7 +25,7 @@ namespace ss
             p.set("mode", "ts");
             int tasks = int(r.range(2, 4));
             p.set("tasks", tasks);
-            p.set("variant", (long long)r.below(6));
+            p.set("variant", (long long)r.below(8));
             p.set("budget", 5000);
             auto ns = r.pick<long long>({8, 16, 32, 64});
             p.set("node_size", ns);
